@@ -464,10 +464,15 @@ def _shapes_task(group):
     def body(c, inp):
         leaf = LeafFactory(symbolic=True)
         inp.note("shapes", [shape_label(o) for o in group])
+        fails = [0]
         for ops in group:
             tag = shape_label(ops)
 
             def prove(name, goal, detail, _c=c):
+                if goal is False:
+                    fails[0] += 1
+                    if fails[0] > 6:  # one replay file per distinct failing name: cap them
+                        name = name.split("/")[0] + "/further_failures"
                 _c.prove(name, goal)
 
             run_case(ops, leaf, prove, tag)
@@ -510,7 +515,15 @@ def _create_new_task(c, inp):
             val = leaf("new")
             before = describe(root)
             snap = identity_snapshot(root)
-            res = root.aset(path, val, create_new_ok=True)
+            try:
+                res = root.aset(path, val, create_new_ok=True)
+            except (Unsupported, Undecided):
+                raise
+            except LeafInspected as e:
+                raise Undecided(f"aset looked into a slot value ({e})") from e
+            except Exception:  # noqa: BLE001 - create_new_ok=True on the last op has to succeed
+                c.prove(f"{tag}/post:returns_with_create_new_ok", False)
+                continue
             diffs = []
             c.prove(f"{tag}/post:same_type", type(res) is type(root))
             c.prove(f"{tag}/post:new_slot_holds_value", leaf_equal(get_path(res, ops_full), val))
@@ -524,7 +537,13 @@ def _create_new_task(c, inp):
         val = leaf("new")
         before = describe(root)
         snap = identity_snapshot(root)
-        res = root.aset(path_string(ops), val, create_new_ok=True)
+        try:
+            res = root.aset(path_string(ops), val, create_new_ok=True)
+        except (Unsupported, Undecided):
+            raise
+        except Exception:  # noqa: BLE001
+            c.prove(f"{tag}/post:returns_for_valid_path", False)
+            continue
         c.prove(f"{tag}/post:only_addressed_path_changed", same_desc(describe(res), spec_update(before, ops, ("leaf", val))))
         c.prove(f"{tag}/frame:original_value_unchanged", same_desc(describe(root), before))
         c.prove(f"{tag}/frame:original_objects_unchanged", identity_unchanged(snap)[0])
@@ -727,6 +746,23 @@ def _write_set(c, inp):
 # ---------------------------------------------------------------------------------------
 
 
+class _Bounded:
+    """records bounded evaluations; after three failures of a group the remaining ones share one name
+    (the harness writes one replay file per distinct name)"""
+
+    def __init__(self, c):
+        self.c = c
+        self.fails = {}
+
+    def __call__(self, group, name, ok, case=None, witness=None):
+        if not ok:
+            self.fails[group] = self.fails.get(group, 0) + 1
+            if self.fails[group] > 3:
+                name = f"{group}/further_failures"
+        self.c.bounded(name, ok, case=case, witness=witness)
+
+
+
 def _check_concrete(root, path, ops, val, create=False):
     """real aset on a concrete tree; returns (ok, detail)"""
     before = describe(root)
@@ -847,6 +883,7 @@ def _random_tree(rnd, leaf, depth):
 
 def _random_task(n_cases, seed, offset):
     def body(c, inp):
+        rec = _Bounded(c)
         for i in range(n_cases):
             rnd = random.Random(f"{seed}/{offset + i}")
             leaf = LeafFactory(symbolic=False, rnd=rnd)
@@ -855,7 +892,7 @@ def _random_task(n_cases, seed, offset):
                 ok, detail = _check_concrete(root, path, ops, leaf())
             except Exception as e:  # noqa: BLE001
                 ok, detail = False, f"aset raised {e!r}"
-            c.bounded(f"random/{offset + i}", ok, case={"seed": f"{seed}/{offset + i}", "path": path}, witness={"notes": {"kind": "random", "seed": f"{seed}/{offset + i}", "path": path, "detail": detail}})
+            rec("random", f"random/{offset + i}", ok, case={"seed": f"{seed}/{offset + i}", "path": path}, witness={"notes": {"kind": "random", "seed": f"{seed}/{offset + i}", "path": path, "detail": detail}})
 
     return body
 
@@ -871,9 +908,10 @@ def tasks(tier, seed):
         _write_set(c, inp)
         _create_new_task(c, inp)
         _failing_paths_task(c, inp)
+        _index_task(c, inp)
 
-    out = {"frame/write_set+create_new+failing_paths": Task(aux), "index_positions": Task(_index_task)}
-    n_groups = 6 if tier == "thorough" else 3
+    out = {"frame/write_set+create_new+failing_paths+index_positions": Task(aux)}
+    n_groups = 4 if tier == "thorough" else 1
     for g in range(n_groups):
         out[f"shapes/{g:02d}"] = Task(_shapes_task(shapes[g::n_groups]))
     n_rand = 4000 if tier == "thorough" else 400
